@@ -17,7 +17,7 @@ claim("C06", "proof",
 claim("C09", "proof",
       "Contracts on the real FmtStr.splice, divides, append: the five-way overlap case split is proved against the statement's "
       "postcondition through an inductive invariant over the cells consumed so far (all run layouts, all start/end, str and FmtStr "
-      "replacement values); bounded stand-in over all layouts <=3 runs.",
+      "replacement values - ANY str, escape sequences included, after the repair 84b9c78); bounded stand-in over all layouts <=3 runs.",
       "Trusted: as C06; the closed form divides[-1] == total length is an instance of the fold lemma.",
       "contract-based deductive verification (AST->VC, cvc5/z3) + bounded run-time contract checking", "DESIGN 9/C09")
 
@@ -39,13 +39,13 @@ claim("C10", "proof",
       "Every clause of the statement is carried by discharged obligations on the real code: Chunk.width, FmtStr.width (memo) and "
       "width_at_offset against the column count; interval_overlap; the per-character cutter width_aware_slice(s, a, b) (two loops: "
       "column prefix sums, then the cut) against the fold BCUT written from the statement (characters wholly inside kept, a double-width "
-      "character cut by an edge becomes one blank, width = requested columns that exist); the run walk FmtStr.width_aware_slice(a:b), "
-      "0 <= a <= b, over the cutter's contract against the fold RUNCUT (each run's cut with that run's formatting) for any number of "
-      "runs.  Bounded stand-in: every string <=4 over narrow/wide/combining x all 3-run layouts x all ranges against an independent column model.",
+      "character cut by an edge becomes one blank, width = requested columns that exist); the run walk FmtStr.width_aware_slice(index) "
+      "for every index form (an int = one column with IndexError outside -width..width-1; open, negative, reversed and past-the-end slice "
+      "bounds) over the cutter's contract (which also holds for start > end) against the fold RUNCUT (each run's cut with that run's "
+      "formatting) over the column range the index denotes, for any number of runs.  Bounded stand-in: every string <=4 over narrow/wide/combining x all 3-run layouts x all ranges against an independent column model.",
       "Assumed: contract of cwcwidth (wcwidth in 0..2 for measurable text, wcswidth = sum; probed); placement of zero-width characters "
       "next to a cut is not specified by the statement (bounded: never invented, in order); fold lemma schemas of the column model are "
-      "proved in Lean (lean/Columns.lean) and re-validated on the executable model each run; int / open / negative indices of the method "
-      "are covered by the bounded suite only.",
+      "proved in Lean (lean/Columns.lean) and re-validated on the executable model each run.",
       "contract-based deductive verification (AST->VC with ghost folds, cvc5/z3, Lean lemma schemas) + exhaustive bounded checking against a column model", "DESIGN 9/C10")
 
 claim("C01", "proof",
@@ -93,10 +93,15 @@ claim("C11", "proof",
       "placement of zero-width characters compared up to attachment in the bounded oracle.",
       "contract-based deductive verification (nested loop invariants, ghost output/trace) + exhaustive bounded checking of the line filler", "DESIGN 9/C11")
 claim("C15", "exploration",
-      "Bounded only: 34 delegated str methods, split (literal and regex), splitlines, ljust/rjust, join on random and enumerated values "
+      "Deductive sub-result: FmtStr.ljust / rjust without a fill character are proved for every value and width (text of str.ljust / "
+      "rjust, own formatting kept but for an unshared background, uniform padding that carries only formatting every character has) over "
+      "the contracts of shared_atts, new_with_atts_removed, __add__/__radd__ and .s.  Everything else is bounded only: 34 delegated str "
+      "methods, split (literal and regex), splitlines, ljust/rjust with a fill character, join on random, enumerated and derived values "
       "against str on the text, per-character formatting of pieces, shared/invented formatting.",
-      "__getattr__ delegation and regex splitting are outside the deductive subset (stated in DESIGN 10); known finding: other line boundaries.",
-      "bounded run-time checking against str (no deductive claim: reflection/regex driven)", "DESIGN 9/C15")
+      "__getattr__ delegation and regex splitting are outside the deductive subset (stated in DESIGN 10); ASSUMED callee contract: "
+      "fmtstr(blanks, **attributes read from existing runs) is one run of blanks with those attributes or ValueError (parse_args is "
+      "table/reflection code decided by C14's bounded suite); known finding: other line boundaries.",
+      "contract-based deductive verification of ljust/rjust (AST->VC, cvc5/z3) + bounded run-time checking against str for the reflection/regex driven methods", "DESIGN 9/C15")
 claim("C16", "exploration",
       "Bounded only: every string <=6 over {a,b,space,tab,newline} x columns 1..4 plus random multi-format values against an independent "
       "greedy wrap on the per-character list.",
@@ -157,7 +162,8 @@ claim("C12", "exploration",
       "Deductive: for Nonblocking, Termmode, Cbreak, ReplacedSigIntHandler, Input (all flag combinations, fresh and re-used object, main "
       "and non-main thread), BaseWindow, FullscreenWindow and CursorAwareWindow the REAL __enter__ and then the REAL __exit__ body are "
       "executed from an arbitrary symbolic OS state (tty attributes, status flags, SIGINT handler, wake-up fd, open-fd count, cursor, "
-      "alternate screen) and every component is proved restored; _nonblocking_read and send are proved to leave flags/handler "
+      "alternate screen) - __exit__ both as after a normal end of the block and with opaque exception arguments whose isinstance/issubclass "
+      "tests go both ways - and every component is proved restored; _nonblocking_read and send are proved to leave flags/handler "
       "unchanged on every exit (return, BlockingIOError, other OSError, exceptions escaping _send).  Bounded: 2 945 / 25 000 scenarios "
       "on a real pty with snapshots (exceptions after every body prefix, nesting, threads, real SIGINT).",
       "Level is exploration: the OS/blessed contracts are assumed, signals between two bytecodes of __enter__/__exit__ are not covered, "
